@@ -22,6 +22,7 @@ CHECKS = {
         "level_note": "Trusted: the reference model in props/c07. The combined task is the head of the queue (as in production).",
         "parts": [
             {"part": "combine", "test": "TestCombine", "quick": {"checks": 20000, "shards": 4}, "thorough": {"checks": 1600000, "shards": 16, "timeout": 3000}},
+            {"part": "concurrent", "test": "TestConcurrentAppend", "quick": {"checks": 8000, "shards": 4}, "thorough": {"checks": 400000, "shards": 16, "timeout": 3000}},
         ],
     },
     "C08": {
@@ -185,6 +186,7 @@ CHECKS = {
         "level_note": "Trusted: the yield points are between critical sections (lock-delimited atomic steps); watch events are delivered by the harness with reflector semantics; fake cluster as ground truth.",
         "parts": [
             {"part": "sched", "test": "TestSched", "quick": {"checks": 4000, "shards": 8}, "thorough": {"checks": 300000, "shards": 16, "timeout": 3000}},
+            {"part": "e2e", "test": "TestE2E", "quick": {"checks": 240, "shards": 16, "shrinktime": "90s", "timeout": 900}, "thorough": {"checks": 5000, "shards": 16, "shrinktime": "180s", "timeout": 6000}, "owned_schedule": False},
         ],
     },
     "C02": {
